@@ -32,6 +32,11 @@ type Config struct {
 	RetryMs     int
 	// Undialable lists backend addresses whose dial fails.
 	Undialable map[string]bool
+	// SmallSockBuf shrinks the send buffer of the proxy's end of every socketpair to the kernel
+	// minimum, so that a peer that does not read makes the proxy's writes partial / EAGAIN.
+	SmallSockBuf bool
+	// WriteBufferCap overrides the static size of the outbound buffers (0: the production 64 KiB).
+	WriteBufferCap int
 }
 
 type S struct {
@@ -61,6 +66,9 @@ func New(cfg Config) (*S, error) {
 		return nil, err
 	}
 	s.L = l
+	if cfg.WriteBufferCap > 0 {
+		l.SetWriteBufferCap(cfg.WriteBufferCap)
+	}
 	return s, nil
 }
 
@@ -74,13 +82,30 @@ func (s *S) Close() {
 	}
 }
 
-func pair() (int, int, error) {
+func (s *S) pair() (int, int, error) {
 	fds, err := unix.Socketpair(unix.AF_UNIX, unix.SOCK_STREAM, 0)
 	if err != nil {
 		return 0, 0, err
 	}
 	unix.SetNonblock(fds[1], true)
+	if s.Cfg.SmallSockBuf {
+		unix.SetsockoptInt(fds[0], unix.SOL_SOCKET, unix.SO_SNDBUF, 1024)
+	}
 	return fds[0], fds[1], nil
+}
+
+// DrainSome reads at most max bytes the proxy has written to p (a slow reader).
+func (s *S) DrainSome(p *Peer, max int) (n int) {
+	buf := make([]byte, max)
+	m, err := unix.Read(p.PeerFd, buf)
+	if m > 0 {
+		p.Got = append(p.Got, buf[:m]...)
+		return m
+	}
+	if err != unix.EAGAIN && err != unix.EINTR {
+		p.EOF = true
+	}
+	return 0
 }
 
 // AddPool registers a backend node; connections to it are created on demand by the proxy's own
@@ -95,7 +120,7 @@ func (s *S) Dial(addr string, isSlave bool) (core.SConn, error) {
 	if s.Cfg.Undialable[addr] {
 		return nil, fmt.Errorf("dial %s: refused", addr)
 	}
-	a, b, err := pair()
+	a, b, err := s.pair()
 	if err != nil {
 		return nil, err
 	}
@@ -113,7 +138,7 @@ func (s *S) Dial(addr string, isSlave bool) (core.SConn, error) {
 
 // Connect opens a client connection from ip.
 func (s *S) Connect(ip string) (*Peer, error) {
-	a, b, err := pair()
+	a, b, err := s.pair()
 	if err != nil {
 		return nil, err
 	}
